@@ -249,7 +249,7 @@ def run(tier):
                         "overlapping domains was created or served from the cache")
     res.assumptions = ["variables created with the default enforce_exct_one=true (the planner's enforce_exct_one=false path is covered by C17 at solver level)"]
     exe = build.driver("dbg", "net_drv")
-    total = 1600 if tier == "quick" else 30000
+    total = 4800 if tier == "quick" else 30000
     per = 50 if tier == "quick" else 250
     common.pmap(work, [(exe, s, per) for s in range(0, total, per)], res)
     res.gate("equality cache reached", res.counters.get("feature:eq-cache-hit", 0) > 0)
